@@ -315,6 +315,12 @@ def rule_r5(ctx: Ctx) -> None:
     for short in mods:
         found.extend(memoised_functions(ctx, short))
     ctx.count(len(mods))
+    from . import approx_keys
+
+    ks, scanned = approx_keys.sites(ctx, ["_serdes", "_serializable"])
+    ctx.count(scanned)
+    found.extend("%s: %s (%s)" % (k["function"], k["construct"], k["kind"]) for k in ks)
+    found = sorted(set(found))
     ctx.check(not found, "_serdes, _serializable.*", "no equality-keyed memo (%d modules)" % len(mods), "what is (de)serialized is decided by the schema object given, not by an equal-comparing one seen earlier", "pydsdl/_serdes.py", found)
 
 
